@@ -33,7 +33,8 @@ ICands == { [id |-> "i0a", depth |-> 0, ranges |-> <<<<2, 2>>>>, cline |-> 20, o
             [id |-> "i0x", depth |-> 0, ranges |-> <<<<2, 2>>>>, cline |-> 24, origin |-> 1, cfile |-> 7],                \* call sites in a file without FILE record
             [id |-> "i1x", depth |-> 1, ranges |-> <<<<3, 1>>>>, cline |-> 25, origin |-> 2, cfile |-> 7],
             [id |-> "i0y", depth |-> 0, ranges |-> <<<<2, 2>>>>, cline |-> 26, origin |-> 3, cfile |-> 1],                \* origin 3 has no INLINE_ORIGIN record
-            [id |-> "i1y", depth |-> 1, ranges |-> <<<<3, 1>>>>, cline |-> 27, origin |-> 3, cfile |-> 1] }
+            [id |-> "i1y", depth |-> 1, ranges |-> <<<<3, 1>>>>, cline |-> 27, origin |-> 3, cfile |-> 1],
+            [id |-> "i0z", depth |-> 0, ranges |-> <<<<4, 0>>, <<2, 0>>>>, cline |-> 28, origin |-> 2, cfile |-> 1] }                \* only zero-size ranges: covers nothing
 \* STACK WIN records (only their parameter sizes matter here)
 WCands == { [kind |-> "fd", addr |-> 3, size |-> 2, psize |-> 12], [kind |-> "fpo", addr |-> 2, size |-> 3, psize |-> 16] }
 Origins == <<"o1", "o2">>
